@@ -347,6 +347,7 @@ structure HttpRequest where
   uri : Str
   headers : Headers
   body : Str
+  deriving Repr, DecidableEq
 
 /-- `IntoHttpError` classes. -/
 inductive IntoErr where
@@ -368,6 +369,7 @@ inductive Outcome (ε α : Type) where
   | err (e : ε)
   | panic
   | illTyped
+  deriving Repr, DecidableEq
 
 /-! ## `OutgoingRequest::try_into_http_request` -/
 
@@ -477,6 +479,7 @@ structure Arrived where
   headers : Headers
   body : Str
   pathArgs : List Str
+  deriving Repr, DecidableEq
 
 /-- `http::Uri`: the path is what precedes the first `?`, the query what follows it up to a `#`. -/
 def splitUri (u : Str) : Str × Str :=
@@ -697,6 +700,7 @@ structure HttpResponse where
   status : Nat
   headers : Headers
   body : Str
+  deriving Repr, DecidableEq
 
 /-- The JSON `ResponseBody` serialises to. -/
 def responseBodyJson (d : RespDesc) (v : RespVal) : Option JVal :=
